@@ -28,6 +28,7 @@ Families (code)
     8 polyt     x_i' = sum_{k<=3} c_ik t^k                       (pure quadrature, exact for order >= 4)  closed form
     9 logdecay  x0' = -a x0, x1' = -b x1 log(x1 / c)   (two time scales; NaN outside the domain x1 > 0)       closed form
                 (not part of catalogue(): used by C02's restricted-domain clause through logdecay_state / logdecay_exact)
+   10 bump      u' = A exp(-((t - tc)/sigma)^2 / 2), x' = v, v' = -x   (narrow forcing feature; needs max_step)  closed form (erf)
 
 Self-test:  python -m hmon.oracles.exactflows
 """
@@ -113,6 +114,12 @@ def universal_rhs(t, y):
         # restricted domain: smooth for x1 > 0, NaN for x1 < 0 (logarithm of a negative number)
         out[0] = -y[p] * y[0]
         out[1] = -y[p + 1] * y[1] * np.log(y[1] / y[p + 2])
+    elif fam == 10:
+        # a narrow smooth feature in the forcing (quadrature of a Gaussian bump) next to a harmonic oscillator
+        z = (t - y[p + 1]) / y[p + 2]
+        out[0] = y[p] * np.exp(-0.5 * z * z)
+        out[1] = y[2]
+        out[2] = -y[1]
     return out
 
 
@@ -126,6 +133,19 @@ def logdecay_state(x0, x1, a, b, c, dim):
 def logdecay_exact(x0, x1, a, b, c, t):
     t = np.asarray(t, dtype=float)
     return np.column_stack([x0 * np.exp(-a * t), c * np.exp(np.log(x1 / c) * np.exp(-b * t))])
+
+
+def bump_state(A, tc, sigma, x, v, dim):
+    y = np.zeros(dim)
+    y[0], y[1], y[2], y[3], y[4], y[5], y[dim - 2], y[dim - 1] = 0.0, x, v, A, tc, sigma, 3.0, 10.0
+    return y
+
+
+def bump_exact(A, tc, sigma, x, v, t):
+    from scipy.special import erf
+    t = np.asarray(t, dtype=float)
+    u = A * sigma * np.sqrt(np.pi / 2.0) * (erf((t - tc) / (sigma * np.sqrt(2.0))) - erf((0.0 - tc) / (sigma * np.sqrt(2.0))))
+    return np.column_stack([u, x * np.cos(t) + v * np.sin(t), -x * np.sin(t) + v * np.cos(t)])
 
 
 _NUMBA_RHS = None
